@@ -38,9 +38,12 @@ def _get_entity_path(name: str, version: int, entity_type: LoadableEntityType) -
     try:
         return schema_name_map[name][version][entity_type]
     except KeyError:
+        # The entity type might be anything in case of a lookup failure, not necessarily
+        # an enum member.
+        entity_type_name = getattr(entity_type, "name", entity_type)
         raise UnknownEntity(
             f"Failed mapping to a an entity path for ({name=!r}, {version=!r}, "
-            f"entity_type={entity_type.name!r})."
+            f"entity_type={entity_type_name!r})."
         ) from None
 
 
